@@ -146,8 +146,14 @@ def _worker(prop_mod_name, cond_name, tier, repo, out_path, excluded):
                         'samples': st['samples'], 'messages': msgs})
             states = [m['state'] for m in msgs]
             if os.path.exists(cex_path):
-                cex = json.load(open(cex_path))
+                raw = open(cex_path).read()
                 os.unlink(cex_path)
+                try:
+                    cex = json.loads(raw)
+                except ValueError:
+                    cex = {'condition': cond.name, 'inputs': None, 'reals': {},
+                           'detail': 'unreadable counterexample record',
+                           'traceback': raw[:3000]}
                 res['cex'] = cex
                 if cex.get('traceback'):
                     res['status'] = 'error'
